@@ -569,6 +569,8 @@ def reconfig_family(ctx, light=False):
         paths.append(tlc_behaviours(ctx, "Reconfig", cfg, 1, 1, workers=1, expect_violation=inv)[0])
     for d, cap in ((11, 150),) if light else ((11, 240), (13, 360)) if ctx.quick else ((11, None), (13, None), (15, 6000)):
         paths.append(tlc_behaviours(ctx, "Reconfig", "MC_Reconfig_emit%d.cfg" % d, 1, d, workers=4, bfs=True, cap=cap, timeout=1200)[0])
+    # hand-written behaviours (teardown racing a pending "in progress" response, ...)
+    paths.append(os.path.join(L.SPEC, "Reconfig_directed.jsonl"))
     allb = os.path.join(ctx.scr.mkdir("rr"), "behaviours.jsonl")
     with open(allb, "w") as f:
         for p in paths:
@@ -713,6 +715,7 @@ def c03(ctx):
 
 
 EXTRA["C01"] = ["C06_Intact", "C06_Genuine", "C06_AtMostOnce", "C12_Ppi"]   # "payload bytes and payload protocol identifier ... nothing lost, duplicated, altered"
+EXTRA["C07"] = ["C01_SkippedReliable", "C02_Delivered", "C01_ReadNext", "C06_Genuine"]   # "never block or destroy anything else": the reliable traffic next to it
 EXTRA["C08"] = ["C09_NoLeak"]   # a shutdown that leaves goroutines blocked for good
 EXTRA["C14"] = ["C02_Delivered", "C01_ReadNext", "C06_Genuine", "C06_AtMostOnce", "C06_OrderedSubseq"]   # "normal delivery" of a re-opened identifier
 EXTRA["C03"] = ["C01_", "C02_Delivered", "C06_Genuine", "C06_AtMostOnce", "C17_WrongKindAbort"]
